@@ -1,0 +1,250 @@
+
+module bmstack(clk,
+    reset,
+    sender1Data,
+    sender1Write,
+    sender1Ack,
+    sender2Data,
+    sender2Write,
+    sender2Ack,
+    sender3Data,
+    sender3Write,
+    sender3Ack,
+    receiver1Data,
+    receiver1Read,
+    receiver1Ack,
+    receiver2Data,
+    receiver2Read,
+    receiver2Ack,
+    empty,
+    full
+);
+    input clk;
+    input reset;
+    output empty;
+    output full;
+    input [31:0] sender1Data;
+    input sender1Write;
+    output reg sender1Ack;
+    input [31:0] sender2Data;
+    input sender2Write;
+    output reg sender2Ack;
+    input [31:0] sender3Data;
+    input sender3Write;
+    output reg sender3Ack;
+    output reg [31:0] receiver1Data;
+    input receiver1Read;
+    output reg receiver1Ack;
+    output reg [31:0] receiver2Data;
+    input receiver2Read;
+    output reg receiver2Ack;
+
+    reg [31:0] memory[7:0];
+    reg [3:0] sp;
+    reg [3:0] readsp;
+    reg [3:0] writesp;
+
+    assign empty = (sp==0)? 1'b1:1'b0; 
+    assign full = (sp==8)? 1'b1:1'b0;
+    
+    wire readneed;
+    wire writeneed;
+
+    assign writeneed = ( 1'b0
+            | sender1Write
+            | sender2Write
+            | sender3Write );
+
+    assign readneed = ( 1'b0
+            | receiver1Read
+            | receiver2Read );
+
+    reg [1:0] sendSM;
+    //
+    //localparam sendSMsender1 = 2'd0;
+    //
+    //localparam sendSMsender2 = 2'd1;
+    //
+    //localparam sendSMsender3 = 2'd2;
+    //
+    
+    reg [0:0] recvSM;
+    //
+    //localparam recvSMreceiver1 = 1'd0;
+    //
+    //localparam recvSMreceiver2 = 1'd1;
+    //
+
+    integer i;
+
+    always @(posedge clk) begin
+        if (reset) begin
+            sp <= 4'd0;
+            readsp <= 4'd0;
+            writesp <= 4'd0;
+            receiver1Data <= 32'd0;
+            receiver1Ack <= 1'b0;
+            receiver2Data <= 32'd0;
+            receiver2Ack <= 1'b0;
+            sender1Ack <= 1'b0;
+            sender2Ack <= 1'b0;
+            sender3Ack <= 1'b0;
+            sendSM <= 2'd0;
+            recvSM <= 1'd0;
+            for (i=0;i<8;i=i+1) begin
+                memory[i]<=32'd0;
+            end
+        end
+        else begin
+            // Read state machine part
+            if (readneed && !empty) begin
+                case (recvSM)
+                1'd0: begin
+                    if (receiver1Read && !receiver1Ack) begin
+                        receiver1Data[31:0] <= memory[readsp];
+                        if (readsp==7) begin
+                            readsp <= 0;
+                            sp <=  writesp;
+                        end
+                        else begin
+                            readsp <= readsp + 1;
+                            if (writesp < readsp + 1) begin
+                                sp <= 8 - readsp -1 + writesp;
+                            end
+                            else begin
+                                sp <= writesp - readsp - 1;
+                            end
+                        end
+                    end
+                    recvSM <= 1'd1;
+                end
+                1'd1: begin
+                    if (receiver2Read && !receiver2Ack) begin
+                        receiver2Data[31:0] <= memory[readsp];
+                        if (readsp==7) begin
+                            readsp <= 0;
+                            sp <=  writesp;
+                        end
+                        else begin
+                            readsp <= readsp + 1;
+                            if (writesp < readsp + 1) begin
+                                sp <= 8 - readsp -1 + writesp;
+                            end
+                            else begin
+                                sp <= writesp - readsp - 1;
+                            end
+                        end
+                    end
+                    recvSM <= 1'd0;
+                end
+                endcase
+            end
+            // Write state machine part
+            else if (writeneed && !full) begin
+                case (sendSM)
+                2'd0: begin
+                    if (sender1Write && !sender1Ack) begin
+                        memory[writesp] <= sender1Data[31:0];
+                        if (writesp==7) begin
+                            writesp <= 0;
+                            sp <= 8 - readsp;
+                        end
+                        else begin
+                            writesp <= writesp + 1;
+                            if (writesp + 1 > readsp) begin
+                                sp <= writesp - readsp + 1;
+                            end
+                            else begin
+                                sp <= 8 - readsp + writesp + 1;
+                            end
+                        end
+                    end
+                    sendSM <= 2'd1;
+                end
+                2'd1: begin
+                    if (sender2Write && !sender2Ack) begin
+                        memory[writesp] <= sender2Data[31:0];
+                        if (writesp==7) begin
+                            writesp <= 0;
+                            sp <= 8 - readsp;
+                        end
+                        else begin
+                            writesp <= writesp + 1;
+                            if (writesp + 1 > readsp) begin
+                                sp <= writesp - readsp + 1;
+                            end
+                            else begin
+                                sp <= 8 - readsp + writesp + 1;
+                            end
+                        end
+                    end
+                    sendSM <= 2'd2;
+                end
+                2'd2: begin
+                    if (sender3Write && !sender3Ack) begin
+                        memory[writesp] <= sender3Data[31:0];
+                        if (writesp==7) begin
+                            writesp <= 0;
+                            sp <= 8 - readsp;
+                        end
+                        else begin
+                            writesp <= writesp + 1;
+                            if (writesp + 1 > readsp) begin
+                                sp <= writesp - readsp + 1;
+                            end
+                            else begin
+                                sp <= 8 - readsp + writesp + 1;
+                            end
+                        end
+                    end
+                    sendSM <= 2'd0;
+                end
+                endcase
+            end
+
+            // Read ack process
+            if (receiver1Read && !receiver1Ack && recvSM==1'd0 && !empty) begin
+                receiver1Ack <= 1'b1;
+            end
+            else begin
+                if (!receiver1Read) begin
+                    receiver1Ack <= 1'b0;
+                end
+            end
+            if (receiver2Read && !receiver2Ack && recvSM==1'd1 && !empty) begin
+                receiver2Ack <= 1'b1;
+            end
+            else begin
+                if (!receiver2Read) begin
+                    receiver2Ack <= 1'b0;
+                end
+            end
+
+            // Write ack process
+            if (!(readneed && !empty) && sender1Write && !sender1Ack && sendSM==2'd0 && !full) begin
+                sender1Ack <= 1'b1;
+            end
+            else begin
+                if (!sender1Write) begin
+                    sender1Ack <= 1'b0;
+                end
+            end
+            if (!(readneed && !empty) && sender2Write && !sender2Ack && sendSM==2'd1 && !full) begin
+                sender2Ack <= 1'b1;
+            end
+            else begin
+                if (!sender2Write) begin
+                    sender2Ack <= 1'b0;
+                end
+            end
+            if (!(readneed && !empty) && sender3Write && !sender3Ack && sendSM==2'd2 && !full) begin
+                sender3Ack <= 1'b1;
+            end
+            else begin
+                if (!sender3Write) begin
+                    sender3Ack <= 1'b0;
+                end
+            end
+        end
+    end
+endmodule
